@@ -287,7 +287,7 @@ func addSig(t *target, r *hlib.Rng, p *prims, lens []int) error {
 			}
 		}
 		det := false
-		if t.cost <= 2 || i == 0 {
+		if t.cost <= 2 || (hlib.Thorough() && i == 0) {
 			if s2, err := p.signer.Sign(msg); err == nil && bytes.Equal(s2, sig0) {
 				det = true
 			}
